@@ -19,7 +19,9 @@ MANIFEST_ENTRY = {
             "and input once its charts saturate (C10_viable_ends_correct); over a validated conflict-free table the "
             "deterministic driver never reports an error at a token that could extend a sentence prefix "
             "(C10_not_early_when_deterministic), and over every table with sound item sets what the LR driver -- and every "
-            "path of the nondeterministic automaton -- has read begins a sentential form (C10_not_late). "
+            "path of the nondeterministic automaton -- has read begins a sentential form (C10_not_late); the GLR driver "
+            "model never meets an unknown production or a missing goto over a wf table "
+            "(C10_glr_model_never_fails_internally: its only answers are forest, syntax error, order-sensitive, out of fuel). "
             "Per non-sentence: exception type, "
             "position vs that verified oracle (end of the longest viable token prefix + layout), "
             "LR = GLR and LALR = SLR positions, line/column vs the model, end-of-file wording, rendering, "
@@ -34,7 +36,8 @@ MANIFEST_ENTRY = {
 
 PROP = "C10"
 LEVEL = "proof"
-THEOREMS = ["C10_lr_error_position", "C10_linecol_inverse", "C10_viable_ends_correct", "C10_viable_ends_correct_on_decoded_data", "C10_not_early_when_deterministic", "C10_not_late", "C10_every_path_reads_viable_prefixes"]
+THEOREMS = ["C10_lr_error_position", "C10_linecol_inverse", "C10_viable_ends_correct", "C10_viable_ends_correct_on_decoded_data", "C10_not_early_when_deterministic", "C10_not_late", "C10_every_path_reads_viable_prefixes",
+            "C10_glr_model_never_fails_internally"]
 META = {
     "rule": "cases = (productive grammar, LR|GLR, LALR|SLR, non-sentence input incl. empty string, trailing layout, "
             "multi-line); non-trivial = rejected input with error position > 0 or at end of input after >= 1 "
